@@ -74,6 +74,12 @@ CHECKS = {
         note="fresh names are the syntactic class x-* (|name| <= 8); payload of the extra key is opaque",
         ref="§4 C15",
     ),
+    "C18": dict(
+        technique="CrossHair symbolic execution of generator/model.py and generator/__main__.main on small metamodel documents built from symbolic flags (optional keys, type-kind selector, base name, edit position, fault index)",
+        text="Within the bounds (<= 1 declaration per list, <= 2 for merge/equality; every optional key subset; 13 type shapes covering every TypeKind of the schema; all base names) the solver shows: the loaded tree read back by an independent walker equals the document; merge equals concatenation for any subset of non-empty lists; equal documents compare equal, each of 12 single structural edits makes them unequal, == never raises; a schema violation injected at any model index stops main() before any plugin runs with nothing written.",
+        note="uuid4 returns a constant, file reading/JSON parsing and jsonschema.validate run outside the tracer (environment); integerLiteral/booleanLiteral kinds are a recorded known finding excluded by precondition",
+        ref="§4 C18",
+    ),
     "C20": dict(
         technique="CrossHair symbolic execution of the real dunder methods (incl. functools.total_ordering) + z3 string-term translation of the three __repr__ bodies",
         text="All six operators agree with tuple order and trichotomy holds for all uinteger pairs; Range/Location equality is structural; unrelated operands give == False and TypeError on ordering; repr equals line:character / start-end / uri:range for all uintegers and all uri strings (z3 unsat).",
